@@ -6,6 +6,7 @@ import (
 	"context"
 	"fmt"
 	"runtime"
+	"strings"
 	"sync"
 	"sync/atomic"
 	"testing"
@@ -184,7 +185,16 @@ func runCase(c *Case) (string, string) {
 	select {
 	case <-pubDone:
 	case <-time.After(2 * limit):
-		return "publish-stuck", fmt.Sprintf("the publishers have not finished after %v although every subscriber keeps receiving (%d of %d published)", 2*limit, published.Load(), total)
+		stacks := ""
+		for _, g := range vkit.Goroutines() {
+			if strings.Contains(g, "tychoish/fun/pubsub") || strings.Contains(g, "c08.runCase") {
+				stacks += g + "\n\n"
+			}
+		}
+		if len(stacks) > 12000 {
+			stacks = stacks[:12000]
+		}
+		return "publish-stuck", fmt.Sprintf("the publishers have not finished after %v although every subscriber keeps receiving (%d of %d published)\n%s", 2*limit, published.Load(), total, stacks)
 	}
 	if why, _ := pubErr.Load().(string); why != "" {
 		return "subscribe", why
